@@ -79,7 +79,11 @@ def judge_steps(steps):
         del evalcorr.CALL_LOG[:]
         try:
             root = b.build()
-            base.with_watchdog(lambda: Config(root))
+            if i % 2:
+                from awesomeyaml.eval_context import EvalContext
+                base.with_watchdog(lambda: Config(root, eval_ctx=EvalContext()))        # a caller-supplied evaluation context
+            else:
+                base.with_watchdog(lambda: Config(root))
             kind, msg = 'ok', ''
         except base.Hang:
             return dict(steps=steps, at=i, reason='does not terminate')
@@ -95,6 +99,38 @@ def judge_steps(steps):
                 return dict(steps=[t for t, _ in steps[:i + 1]], at=i, reason='something was evaluated before the missing placeholders were reported', executed=list(evalcorr.CALL_LOG))
         elif kind != 'ok':
             return dict(steps=[t for t, _ in steps[:i + 1]], at=i, reason='no placeholder survives (all were overwritten or deleted by later stages), yet construction failed', got=kind, message=msg[:300])
+    return None
+
+
+def cmdline_cases():
+    """the usual last stage that fills placeholders: inline command-line options, with paths through lists of lists"""
+    base_doc = '{grid: [[1, !required ], [3, 4]], fns: [[5, {a: !required , b: 1}]], k: 0}'
+    return [dict(cmd=True, base=base_doc, args=['grid[0][1]=2', 'fns[0][1].a=7'], expect=[]),
+            dict(cmd=True, base=base_doc, args=['grid[0][1]=2'], expect=['fns[0][1].a']),
+            dict(cmd=True, base=base_doc, args=['grid[1][0]=7', 'fns[0][1].a=7'], expect=['grid[0][1]']),
+            dict(cmd=True, base=base_doc, args=['fns[0][1].b=9'], expect=['fns[0][1].a', 'grid[0][1]']),
+            dict(cmd=True, base=base_doc, args=['grid[1][1]=0', 'grid[0][1]=6', 'fns[0][1].a=w'], expect=[])]
+
+
+def judge_cmdline(case):
+    from awesomeyaml.config import Config
+    from awesomeyaml.builder import Builder
+    try:
+        yamls, fnames, raws = Config.process_cmdline([case['base']] + case['args'])
+        b = Builder()
+        b.add_multiple_sources(*yamls, raw_yaml=raws, filename=fnames)
+        Config(b.build())
+        kind, msg = 'ok', ''
+    except Exception as e:
+        kind, msg = evalcorr.err_kind(e), str(e)
+    if case['expect']:
+        if kind != 'EMissing':
+            return dict(case=case, reason='a placeholder that no option filled must fail the construction with the list of missing paths', got=kind, message=msg[:300])
+        listed = sorted(eval(m) for m in re.findall(r"^\s+('.*'|\".*\")\s*$", msg, flags=re.M))
+        if listed != sorted(case['expect']):
+            return dict(case=case, reason='the error must list exactly the surviving placeholders', listed=listed)
+    elif kind != 'ok':
+        return dict(case=case, reason='every placeholder was filled by a command-line option, yet construction failed', got=kind, message=msg[:300])
     return None
 
 
@@ -114,6 +150,7 @@ def run(rep, tier, rng):
     for t in inputs:
         rep.case('\n'.join(t), any('!required' in x for x in t), sample=t)
     base.run_oracle(rep, 'C14', 'fails iff a placeholder survives; all paths listed; nothing evaluated first', inputs, judge)
+    base.run_oracle(rep, 'C14', 'placeholders filled by inline command-line options (paths through lists of lists)', cmdline_cases(), judge_cmdline)
     base.run_oracle(rep, 'C14', 'one builder used incrementally: placeholders filled / deleted (incl. a top-level !del {}) / introduced after a successful construction',
                     [gen_steps(rng) for _ in range(40 if tier == 'quick' else 600)], judge_steps, show=lambda st: dict(steps=[list(x) for x in st]))
 
@@ -121,7 +158,10 @@ def run(rep, tier, rng):
 def replay(data):
     r = data['replay']
     if 'input' in r:
-        f = judge_steps([tuple(x) for x in r['input']['steps']]) if isinstance(r['input'], dict) else judge(r['input'])
+        if isinstance(r['input'], dict) and (r['input'].get('cmd') or (isinstance(r['input'].get('case'), dict) and r['input']['case'].get('cmd'))):
+            f = judge_cmdline(r['input'].get('case', r['input']))
+        else:
+            f = judge_steps([tuple(x) for x in r['input']['steps']]) if isinstance(r['input'], dict) else judge(r['input'])
         print('replay:', 'property FAILS' if f else 'property holds', f or '')
         return 1 if f else 0
     print('no input to replay; broken obligations:', r)
